@@ -402,9 +402,15 @@ def initial_pool(seeds):
     Tres = refs.rt(refs.rotx(np.pi), np.array([1.2e-16, -0.0, 1.0]))       # residue 1.2e-16, -0.0 and sin(pi) entries
     pool["T4"].append(Tres.copy())
     pool["R3"].append(Tres[:3, :3].copy())
+    # the same kind of values held column-major (transposed copies, MATLAB data): for those a transposed VIEW of the argument
+    # is C-contiguous, which "ascontiguousarray(T.T)" style code then writes into
+    pool["T4"].append(np.asfortranarray(T[1].copy()))
+    pool["R3"].append(np.asfortranarray(T[2][:3, :3].copy()))
     for M in T2:
         pool["T3"].append(M.copy())
         pool["R2"].append(M[:2, :2].copy())
+    pool["T3"].append(np.asfortranarray(T2[1].copy()))
+    pool["R2"].append(np.asfortranarray(T2[2][:2, :2].copy()))
     for v in seeds["v6"]:
         v = arr(v)
         pool["v6"].append(v.copy())
@@ -415,9 +421,10 @@ def initial_pool(seeds):
         pool["t3"].append(tuple(float(x) for x in v[1:4]))
     pool["s"] = [float(seeds["s"]), 0.25, 2]
     pool["SO3"] = [L.SO3(T[0][:3, :3].copy()), L.SO3([M[:3, :3].copy() for M in T])]
-    pool["SE3"] = [L.SE3(T[0].copy()), L.SE3([M.copy() for M in T]), L.SE3(Tres.copy(), check=False)]
+    pool["SE3"] = [L.SE3(T[0].copy()), L.SE3([M.copy() for M in T]), L.SE3(Tres.copy(), check=False), L.SE3(np.asfortranarray(T[2].copy()))]
     pool["SO2"] = [L.SO2(T2[0][:2, :2].copy()), L.SO2([M[:2, :2].copy() for M in T2])]
-    pool["SE2"] = [L.SE2(T2[0].copy()), L.SE2([M.copy() for M in T2]), L.SE2(refs.rt(refs.rot2(np.pi), [3.3e-17, -0.0]), check=False)]
+    pool["SE2"] = [L.SE2(T2[0].copy()), L.SE2([M.copy() for M in T2]), L.SE2(refs.rt(refs.rot2(np.pi), [3.3e-17, -0.0]), check=False),
+                   L.SE2(np.asfortranarray(T2[1].copy()))]
     qs = [refs.q_of(s["rot"]) for s in seeds["p3"]]
     pool["UQ"] = [L.UnitQuaternion(qs[0].copy()), L.UnitQuaternion([q.copy() for q in qs]),
                   L.UnitQuaternion([float(-x) for x in qs[0]]), L.UnitQuaternion([-qs[1], qs[2], -qs[0]])]   # both halves of the double cover
@@ -466,7 +473,7 @@ DEFAULT_SEEDS = {
 def gen_each_op(tier):
     """every operation once on every combination of the first two pool members of each kind"""
     for name in sorted(optable()):
-        for i in range(3):
+        for i in range(5):
             for j in range(3):
                 yield {"kind": "history", "seeds": DEFAULT_SEEDS, "steps": [[name, i, j]]}
 
